@@ -65,6 +65,9 @@ def cases(tier, seed):
         out.append(dict(fam="run", dev=d, B=0.5, tol=tol, ab=0, maxit=1000, thermal=True))
     for d in ("G1s", "G5"):
         out.append(dict(fam="off", dev=d, B=0.6))
+        # screening switched off for a run that continues from a screened solution (non-initial start)
+        out.append(dict(fam="off", dev=d, B=0.6, seeded="screened"))
+        out.append(dict(fam="off", dev=d, B=0.6, seeded="unscreened"))
     # field sweeps: each run is seeded with the converged solution of the previous field; every solution the caller still
     # holds must stay self-consistent (its stored potential reproduces the sum from its stored currents)
     for d, tol in itertools.product(("G1s", "G5"), (1e-2, 1e-3) if quick else tols):
@@ -323,14 +326,25 @@ def run_off(case):
     dt = 2.0**-5
     opts = tdgl.SolverOptions(solve_time=6 * dt, dt_init=dt, dt_max=dt, adaptive=False, save_every=1, output_file="out.h5",
                               include_screening=False, progress_interval=10**9)
-    tdgl.solve(dev, opts, applied_vector_potential=case["B"])
+    seed = None
+    if case.get("seeded"):
+        o0 = tdgl.SolverOptions(solve_time=3 * dt, dt_init=dt, dt_max=dt, adaptive=False, save_every=3, output_file="seed.h5",
+                                include_screening=(case["seeded"] == "screened"), screening_tolerance=1e-3, progress_interval=10**9)
+        seed = tdgl.solve(dev, o0, applied_vector_potential=case["B"])
+    sol = tdgl.solve(dev, opts, applied_vector_potential=case["B"], seed_solution=seed)
     frames, _ = drivers.read_frames("out.h5")
     for fr in frames:
         res.states.add(f"{res.key}:{int(fr['attrs']['step'])}")
         res.transitions += 1
         if np.any(np.asarray(fr["data"]["induced_vector_potential"]) != 0):
-            res.violate("induced-potential-nonzero-without-screening", detail={"label": int(fr["attrs"]["step"])})
+            res.violate("induced-potential-nonzero-without-screening", seeded=case.get("seeded", "no"), detail={"label": int(fr["attrs"]["step"])})
             break
+    # ... and as exposed by the loaded solution
+    for step in sol.data_range if hasattr(sol, "data_range") else ():
+        pass
+    sol.solve_step = -1
+    if np.any(np.asarray(sol.tdgl_data.induced_vector_potential) != 0):
+        res.violate("induced-potential-nonzero-without-screening", seeded=case.get("seeded", "no"), via="solution", detail={})
     res.nontrivial = True
     res.outcome = "off"
     return res
